@@ -460,6 +460,14 @@ func propC12(run *Run, n int) {
 			// a patch shaped like the target with edits: nulls (deletions), empty objects, replaced values
 			p = mergeShape(r, cfg, t, 0)
 		}
+		if r.Chance(1, 6) {
+			// deep chains: a patch whose object at depth 2..6 has several leaf members
+			d := DeepCfg()
+			t, p = d.ChainPair(r, false)
+			if r.Chance(1, 2) {
+				t = cfg.Doc(r, 0)
+			}
+		}
 		if p.K == KVoid {
 			continue
 		}
